@@ -1644,6 +1644,16 @@ def run_tasks(tasks):
 
 # ---- judging ------------------------------------------------------------------------------------------------------------------------
 
+def coq_eval_batched(name, imports, exprs, chunk):
+    """core.coq_eval numbers the cases with unary nat literals, whose cost grows with the case index: keep every call
+    small (one wave of NPROC chunk files) so that the thorough tier stays linear."""
+    out = []
+    per_call = chunk * core.NPROC
+    for a in range(0, len(exprs), per_call):
+        out.extend(core.coq_eval(name, imports, exprs[a:a + per_call], chunk=chunk))
+    return out
+
+
 def judge(ctx, suite, results, samples=1):
     """Model vs implementation on every scenario result + collect the oracle failures."""
     exprs, idx = [], []
@@ -1654,7 +1664,7 @@ def judge(ctx, suite, results, samples=1):
         exprs.append(model_expr(tuple(r['cfg']), r['msteps']) if r['kind'] == 'default' else lmodel_expr(tuple(r['cfg']), r['msteps']))
         idx.append(n)
     imports = IMPORTS + IMPORTS_LEGACY
-    outs = core.coq_eval('c13' + re.sub(r'\W', '', suite), imports, exprs, chunk=60) if exprs else []
+    outs = coq_eval_batched('c13' + re.sub(r'\W', '', suite), imports, exprs, chunk=60) if exprs else []
     stats = ctx.cov['suites'].setdefault(suite, {'evaluations': 0, 'distinct_nontrivial': 0}).setdefault('events', {})
     for n, o in zip(idx, outs):
         r = results[n]
@@ -1692,7 +1702,7 @@ def judge_components(ctx, cases):
                 coq_rows(c['rows']), coq_nat(c['cas']['j']), coq_opt_N(c['cas']['exp']), coq_N(c['now']), coq_rows(c['rows'])))
         b = 'None' if c['cfg'][2] is None else '(Some %s)' % coq_nat(c['cfg'][2])
         exprs.append('map lid (lcandidates %s %s %s %s)' % (b, coq_N(c['now']), coq_list([coq_nat(j) for j in c['lsel']]), coq_lrows(c['lrows'])))
-    outs = core.coq_eval('c13comp', IMPORTS + IMPORTS_LEGACY, exprs, chunk=300)
+    outs = coq_eval_batched('c13comp', IMPORTS + IMPORTS_LEGACY, exprs, chunk=150)
     pos = 0
     kinds = {'select_nonempty': 0, 'cas_ok': 0, 'cas_fail': 0, 'batch_cut': 0}
     for c in cases:
